@@ -137,6 +137,8 @@ pub struct Core {
     pub byte_budget: u64,
     pub byte_budget_hit: bool,
     pub d0_starts: u64,
+    /// how often each top-level instruction index has been started in this run
+    pub d0_line_starts: HashMap<usize, u32>,
     pub last_d0_error: bool,
     pub handler_name: Option<String>,
     pub fired: BTreeMap<String, u64>,
@@ -176,6 +178,7 @@ impl Core {
             byte_budget: u64::MAX,
             byte_budget_hit: false,
             d0_starts: 0,
+            d0_line_starts: HashMap::new(),
             last_d0_error: false,
             handler_name: None,
             fired: BTreeMap::new(),
@@ -382,6 +385,15 @@ impl Command for Wrapped {
                 if !handler {
                     d0_index = Some(core.d0_starts);
                     core.d0_starts += 1;
+                    let n = core.d0_line_starts.entry(line).or_insert(0);
+                    *n += 1;
+                    if *n > 1 {
+                        // (for the hang report: this line has completed before in this run - the run loops)
+                        let n = *n;
+                        if let Ok(mut g) = IN_FLIGHT.lock() {
+                            g.push_str(&format!(" [execution #{} of this line in this run]", n));
+                        }
+                    }
                     core.nested_in_current = 0;
                     core.current_d0_cmd = name.clone();
                 }
